@@ -35,6 +35,9 @@ def validate(module, chunks, constants, name="trace", jobs=16, heap=None, timeou
     every event with a failing clause; stats has states/transitions/events.
     The trace spec must print <<"VERDICT", n, {clauses}>> per failing event and
     <<"SUMMARY", consumed, total, nbad>> from its POSTCONDITION."""
+    # several checks running side by side (mutation campaigns, seed sweeps) cap
+    # the number of JVMs each may hold at once
+    jobs = max(1, min(jobs, int(os.environ.get("VERIF_MAX_JVMS", jobs))))
     workroot = tlc.make_workdir("verif-trace-")
     verdicts = []
     stats = {"states": 0, "transitions": 0, "events": 0, "files": len(chunks), "wall_s": 0.0}
